@@ -40,6 +40,9 @@ type c05Case struct {
 	Rendered map[string]string `json:"rendered,omitempty"` // file name -> text (authoritative when present)
 	Options  world.Options     `json:"options,omitempty"`
 	CLIArgs  []string          `json:"cli_args,omitempty"`
+	// CLIBare: sources whose file is called <module>.yang are given to the
+	// command by module name (it then looks the file up itself).
+	CLIBare bool `json:"cli_bare,omitempty"`
 	Runs     []c05Run          `json:"runs"`
 	Injected []string          `json:"injected,omitempty"`
 	// Soup maps a file name to statements spliced before the closing brace of
@@ -220,6 +223,10 @@ func (c05Driver) Generate(t *tape.Tape, tier string) core.Case {
 	if c.Mode == "cli" {
 		k = 3
 		c.CLIArgs = [][]string{{"--format", "tree"}, {"--format", "types"}, {"--format", "types", "--types_verbose"}}[ot.Intn(3)]
+		if c.Options.IgnoreCircDeps {
+			c.CLIArgs = append(c.CLIArgs, "--ignore-circdep")
+		}
+		c.CLIBare = ot.Chance(1, 3)
 	}
 	st := t.Sub("schedules")
 	for i := 0; i < k; i++ {
@@ -452,7 +459,12 @@ func (c05Driver) runCLI(c *c05Case, texts map[string]string, names []string, o *
 	}
 	run := func(order []string, sched *maporder.Schedule) string {
 		args := append([]string{}, c.CLIArgs...)
-		args = append(args, order...)
+		for _, a := range order {
+			if c.CLIBare && strings.HasSuffix(a, ".yang") && !strings.Contains(a, "@") {
+				a = strings.TrimSuffix(a, ".yang")
+			}
+			args = append(args, a)
+		}
 		cmd := exec.Command(cli, args...)
 		cmd.Dir = dir
 		js, _ := json.Marshal(sched)
